@@ -128,6 +128,8 @@ func NewEngine(tape *Tape) *Engine {
 	return e
 }
 
+var traceSched = os.Getenv("VERIF_TRACE") != ""
+
 func curGoid() uint64 {
 	var buf [40]byte
 	n := runtime.Stack(buf[:], false)
@@ -547,6 +549,17 @@ func (e *Engine) Run(driver func()) {
 		}
 		it := e.pick(its)
 		e.Steps++
+		if traceSched {
+			var ks []string
+			for _, x := range its {
+				k := x.key()
+				if x.t != nil {
+					k += "@" + x.t.site
+				}
+				ks = append(ks, k)
+			}
+			fmt.Fprintf(os.Stderr, "STEP %d t=%v pick=%s of %v\n", e.Steps, e.Now(), it.key(), ks)
+		}
 		k := it.key()
 		h := e.schedHash
 		for i := 0; i < len(k); i++ {
